@@ -2,6 +2,7 @@
 # Soak: every quick check under many VERIF_SEED values; prints one line per (seed, property).
 # usage: soak.sh <first seed> <last seed> [props...]
 cd "$(dirname "$0")"
+export VERIF_REPO=${VP_RUN_REPO:-/repo}
 first=$1; last=$2; shift 2
 props=${@:-C01 C02 C04 C05 C06 C07 C08 C09 C12 C15 C18}
 for seed in $(seq $first $last); do
